@@ -136,6 +136,53 @@ def run_case(ctx, i, rng):
         if dd:
             ctx.violation("second-roundtrip-differs", "%s | policy=%s" % (dd, policy))
             return
+        # write again after an edit: new siblings INSERTED IN FRONT whose names collide (ignoring case) with identifiers
+        # that the first write already assigned to later siblings
+        edits = 0
+        for l in list(n.libraries):
+            for dd in list(l.definitions):
+                for kind, coll, mk in (("cable", dd.cables, lambda nm: dd.add_cable(sdn.Cable(nm), position=0)),
+                                       ("instance", dd.children, None),
+                                       ("port", dd.ports, None)):
+                    cands = [x for x in coll if x.name and x.name.swapcase() != x.name and
+                             not any(y.name == x.name.swapcase() for y in coll)]
+                    if not cands or rng.random() < 0.6:
+                        continue
+                    x = rng.choice(cands)
+                    nm = x.name.swapcase()
+                    try:
+                        if kind == "cable":
+                            c_ = sdn.Cable(nm)
+                            c_.create_wire()
+                            dd.add_cable(c_, position=0)
+                        elif kind == "instance":
+                            i_ = sdn.Instance(nm)
+                            i_.reference = x.reference
+                            dd.add_child(i_, position=0)
+                        else:
+                            if len(dd.references):
+                                continue
+                            p_ = sdn.Port(nm, direction=sdn.IN)
+                            p_.create_pin()
+                            dd.add_port(p_, position=0)
+                        edits += 1
+                    except ValueError:
+                        pass        # EDIF policy may refuse (identifier of the sibling equals the new name ignoring case)
+        if edits:
+            c4 = canon.canon_edif(n, with_identifiers=False)
+            try:
+                f4, n4 = roundtrip(n, d, "e")
+            except Exception as ex:  # noqa: BLE001
+                ctx.violation("write-after-edit-raised:%s:%s" % (type(ex).__name__, (probes.innermost_frame(ex) or "").split(":")[-1]),
+                              "%r at %s | %d case-variant siblings inserted in front after the first write | policy=%s" % (
+                                  str(ex)[:120], probes.innermost_frame(ex), edits, policy))
+                return
+            ctx.count("round_trips")
+            ctx.count("write_after_edit_round_trips")
+            dd_ = canon.first_diff(c4, canon.canon_edif(n4, with_identifiers=False))
+            if dd_:
+                ctx.violation("write-after-edit-differs", "%s | policy=%s" % (dd_, policy))
+                return
         ctx.fingerprint(canon.canon_edif(n, with_identifiers=False), (st["libs"] >= 2 or st["depth"] >= 2) and has_bus)
         if i < 2:
             ctx.sample({"policy": policy, "shape": st, "file_head": open(f).read()[:600]})
